@@ -50,11 +50,6 @@ def plan(tier: str, seed: int):
         shards.append({"name": f"rnd{i}", "engine": "jit",
                        "args": {"mode": "random", "n": per},
                        "timeout": 3000})
-    # the random workload under NUMBA_DISABLE_JIT=1 (numpy scalar arithmetic
-    # in the storage types instead of machine integers)
-    shards.append({"name": "py0", "engine": "py", "timeout": 3000,
-                   "args": {"mode": "random",
-                            "n": 60 if tier == "quick" else 1500}})
     return shards
 
 
